@@ -147,6 +147,7 @@ def run_c27(ctx, pid):
         return label, rs, j, drift
 
     f_replays = []
+    by_b = collections.defaultdict(list)      # walks are replayed in one driver run per maxBatch (fewer TLC start-ups)
     for tag, b, nsel, fut in f_dumps:
         d = fut.result()
         g = tlagraph.Graph.load(os.path.join(d.rundir, "graph.dot"))
@@ -159,34 +160,37 @@ def run_c27(ctx, pid):
         beh = walks_to_behaviours(sel)
         if len(samples) < 3:
             samples.append({"walk_" + tag: [[s["a"]] + s["args"] for s in beh[0]]})
-        f_replays.append(pool.submit(replay, "cover-" + tag, beh, b, 6))
+        by_b[b] += beh
     gen = f_gen.result()
     sim = [[s for s in b if s["a"] != "pad"] for b in vlib.parse_sim_behaviours(gen.out)]
     if len(sim) < (50 if quick else 500):
         raise vlib.Infra("TLC simulation produced only %d walks" % len(sim))
     total["random_walks"] = len(sim)
-    f_replays.append(pool.submit(replay, "sim", sim, 2, 2))
+    by_b[2] += sim
+    for b in sorted(by_b):
+        f_replays.append(pool.submit(replay, "replay-B%d" % b, by_b[b], b, 5))
 
-    # ---- 3. free-running histories (real blocking, real select races)
-    def stress(label, maxbatch, callers, msgs, n):
-        trace = ctx.tmp("coal-stress-%s.ndjson" % label)
-        p = ctx.run([exe, "coal-stress", str(maxbatch), str(callers), str(msgs), str(n), str(ctx.seed * 100 + maxbatch), trace],
-                    timeout=900 if quick else 3000)
-        rs = json.loads(p.stdout.strip().splitlines()[-1])
-        return label, rs, judge_coalescer(ctx, "stress-" + label, trace, timeout=900 if quick else 3000), None
+    # ---- 3. free-running histories (real blocking, real select races) and, end to end on two real actor systems, order /
+    #         at-most-once at the receiving actors and dead letters at the sender; one trace, one monitor run
+    def free_group():
+        tmo = 900 if quick else 3000
+        cmds = [["coal-stress", str(mb), str(nc), str(nm), str(n), str(ctx.seed * 100 + mb)]
+                for mb, nc, nm, n in ((1, 3, 4, 150 if quick else 2500), (2, 4, 6, 150 if quick else 2500), (4, 6, 8, 100 if quick else 1500))]
+        cmds.append(["sys-tell", "8", "30", "3", str(20 if quick else 400), str(ctx.seed)])
+        cmds.append(["sys-dead", "4", "12", str(5 if quick else 60), str(ctx.seed)])
+        rows, rs_all = [], collections.Counter()
+        for i, argv in enumerate(cmds):
+            t = ctx.tmp("coal-free-%d-%s.ndjson" % (i, argv[0]))
+            p = ctx.run([exe] + argv + [t], timeout=tmo)
+            for k, v in json.loads(p.stdout.strip().splitlines()[-1]).items():
+                if isinstance(v, int):
+                    rs_all[argv[0] + "." + k] += v
+            rows += vlib.read_ndjson(t)
+        trace = ctx.tmp("coal-free-all.ndjson")
+        vlib.write_ndjson(trace, rows)
+        return "free-run", dict(rs_all), judge_coalescer(ctx, "free-run", trace, timeout=tmo), None
 
-    for label, mb, nc, nm, n in (("b1", 1, 3, 4, 150 if quick else 2500), ("b2", 2, 4, 6, 150 if quick else 2500),
-                                 ("b4", 4, 6, 8, 100 if quick else 1500)):
-        f_replays.append(pool.submit(stress, label, mb, nc, nm, n))
-
-    # ---- 4. end to end on two real actor systems: order / at-most-once at the receiving actors, dead letters at the sender
-    def sysrun(label, argv):
-        trace = ctx.tmp("%s.ndjson" % label)
-        p = ctx.run([exe] + argv + [str(ctx.seed), trace], timeout=900 if quick else 3000)
-        return label, json.loads(p.stdout.strip().splitlines()[-1]), judge_coalescer(ctx, label, trace, timeout=900 if quick else 3000), None
-
-    f_replays.append(pool.submit(sysrun, "sys-tell", ["sys-tell", "8", "30", "3", str(20 if quick else 400)]))
-    f_replays.append(pool.submit(sysrun, "sys-dead", ["sys-dead", "4", "12", str(5 if quick else 60)]))
+    f_replays.append(pool.submit(free_group))
 
     # ---- collect design results
     for f in f_design:
@@ -210,9 +214,14 @@ def run_c27(ctx, pid):
     ]
     known_hits = collections.Counter()
     violations = []
+    infra = []
     aborted = []
     for fut in f_replays:
-        label, rs, j, drift = fut.result()
+        try:
+            label, rs, j, drift = fut.result()
+        except vlib.Infra as ex:      # one leg broke (e.g. the code under test crashed the driver): judge the others first
+            infra.append(str(ex))
+            continue
         judged.append(j)
         total["histories"] += j.histories
         total["nontrivial"] += j.nontrivial
@@ -252,6 +261,8 @@ def run_c27(ctx, pid):
            "watchdog": total["watchdog"], "stuck_histories": total["stuck"], "events_validated": total["events"],
            "conformance_drift": drifts[:5] or None, "known_finding_histories": dict(known_hits),
            "wire_metadata_mismatches": md_mism, "exhaustive": False}
+    if infra and not violations:
+        raise vlib.Infra(infra[0])
     if not violations and not aborted and (total["histories"] < 100 or total["nontrivial"] < 50):
         raise vlib.Infra("too few histories judged (%d, %d non-trivial)" % (total["histories"], total["nontrivial"]))
     if total["completed"] < total["behaviours"] // 2:
@@ -367,9 +378,14 @@ def run_c28(ctx, pid):
     if f_put.result().violated not in ("PoolClean", "OwnReply", "OwnPrefix"):
         raise vlib.Infra("ConnPool.tla with Defects={PutOnTimeout} no longer violates PoolClean/OwnReply (spec changed?)")
     violations = []
+    infra = []
     md = 0
     for fut in futs:
-        label, rs, j, drift = fut.result()
+        try:
+            label, rs, j, drift = fut.result()
+        except vlib.Infra as ex:
+            infra.append(str(ex))
+            continue
         total["histories"] += j.histories
         total["results"] += j.results
         total["ok"] += j.ok
@@ -405,7 +421,9 @@ def run_c28(ctx, pid):
         "short deadlines are real time (120 ms): a short-deadline exchange is never answered in time by construction",
         "idle-timeout eviction and TLS / compression wrappers are not exercised",
     ]
-    if total["histories"] < 100 or total["ok"] < 200:
+    if infra and not violations:
+        raise vlib.Infra(infra[0])
+    if not violations and (total["histories"] < 100 or total["ok"] < 200):
         raise vlib.Infra("too few exchanges judged (%d histories, %d ok)" % (total["histories"], total["ok"]))
     if violations:
         label, j, line, who, want, got = violations[0]
@@ -479,8 +497,13 @@ def run_c29(ctx, pid):
     if f_mixed.result().violated != "NoMixedBatch":
         raise vlib.Infra("MetaCoalescer.tla: no batch mixes callers within the bounds (vacuous)")
     violations = []
+    infra = []
     for fut in futs:
-        label, rs, j, kind = fut.result()
+        try:
+            label, rs, j, kind = fut.result()
+        except vlib.Infra as ex:
+            infra.append(str(ex))
+            continue
         total["histories"] += j.histories
         total["events"] += j.lines
         total["stuck"] += j.stuck
@@ -510,7 +533,9 @@ def run_c29(ctx, pid):
     assumptions = ["the propagator is the harness's (one header carrying the message id); header maps with several keys, "
                    "multi-valued headers and propagators that fail are not varied",
                    "BatchAsk carries ONE caller context for the whole batch by API design: the id injected for its messages is the call's"]
-    if total["messages"] < 1000 or total["mixed_batches"] < 20:
+    if infra and not violations:
+        raise vlib.Infra(infra[0])
+    if not violations and (total["messages"] < 1000 or total["mixed_batches"] < 20):
         raise vlib.Infra("too little judged (%d messages, %d wire batches mixing callers)" % (total["messages"], total["mixed_batches"]))
     if violations:
         label, j, line, mid, got = violations[0]
